@@ -106,6 +106,7 @@ def opOf : Sexp → Option Op
   | .list [.atom "excludein", h, .list ks] => do pure (.excludeIn (← pathOf h) (← ks.mapM pathOf))
   | .list [.atom "flattenin", h, .atom sep] => do pure (.flattenIn (← pathOf h) (← unhex sep))
   | .list [.atom "unflattenin", h, .atom sep] => do pure (.unflattenIn (← pathOf h) (← unhex sep))
+  | .list [.atom "selectin", h, m] => do pure (.selectIn (← pathOf h) (← treeOf m))
   | .list [.atom "write", h, .atom an, m] => do pure (.write (← pathOf h) (an == "true") (← treeOf m))
   | .list [.atom "updatetd", h, m] => do pure (.updateTd (← pathOf h) (← treeOf m))
   | .list [.atom "auto", h, bd] => do pure (.autoBatch (← pathOf h) (← optNat bd))
